@@ -126,6 +126,16 @@ def check(prog, res, tier):
                 return it.sym_bytes('record', lo=1, hi=6000)
             all_runs.append((f'{cls}.{meth}', Runs(prog, entry_m, summaries={'iso8583.dumps': dsum}, res=res)))
 
+    for q in ('mciipm.vbs_list_to_bytes', 'mciipm.vbs_bytes_to_list'):
+        if prog.has_func(q):
+            cfi = prog.func(q)
+
+            def entry_c(it, cfi=cfi):
+                arg = ListV(items=None, elem=it.sym_bytes('rec', lo=1), length=it.sym_int('n', 0, None).lin) if 'list_to' in cfi.name \
+                    else it.sym_bytes('vbs_bytes')
+                return it.call_function(cfi, [arg], {'blocked': SymV('blocked', 'bool')})
+            all_runs.append((q, Runs(prog, entry_c, res=res)))
+
     offenders = []
     n_paths = 0
     blockers = []
